@@ -121,6 +121,11 @@ pub enum G {
     Mid(Box<G>),
     /// `.lazy()`
     Lazy(Box<G>),
+    /// `Ext(W)` where `W: ExtParser` runs the inner parser with `inp.parse(&inner)`; `true` = W has a
+    /// hand-written `check` (`inp.check(&inner)`), `false` = the trait's default `check`
+    Ext(Box<G>, bool),
+    /// `custom(|inp| inp.parse(&inner))`
+    CustomNest(Box<G>),
     Rep(Box<G>, Bounds, Sink),
     // ---- binary / n-ary ---------------------------------------------------------------------
     Then(Box<G>, Box<G>),
@@ -178,7 +183,7 @@ impl G {
             | Not(a) | Rewind(a) | Boxed(a) | ToSlice(a) | ToSpan(a) | Validate(a, _)
             | Labelled(a, _) | MapErr(a) | Memo(a) | WithState(a) | NestedDelims(a)
             | WithCtx(_, a) | MapCtx(a) | RepCtx(a) | RepCtxMax(a) | TryRepCtx(a) | Snd(a) | Fst(a) | MapUnit(a)
-            | MapZ(a) | SliceWith(a) | SpanWith(a) | Mid(a) | Lazy(a) => vec![a],
+            | MapZ(a) | SliceWith(a) | SpanWith(a) | Mid(a) | Lazy(a) | Ext(a, _) | CustomNest(a) => vec![a],
             Rep(a, _, s) => {
                 let mut v = vec![&**a];
                 v.extend(s.child());
@@ -256,7 +261,7 @@ pub fn nullable(g: &G) -> bool {
         Map(a) | To(a) | Ignored(a) | Filter(a) | TryMap(a) | TryMapWith(a) | Boxed(a)
         | ToSlice(a) | ToSpan(a) | Validate(a, _) | Labelled(a, _) | MapErr(a) | Memo(a)
         | WithState(a) | WithCtx(_, a) | MapCtx(a) | Snd(a) | Fst(a) | MapUnit(a) | MapZ(a)
-        | SliceWith(a) | SpanWith(a) | Mid(a) => nullable(a),
+        | SliceWith(a) | SpanWith(a) | Mid(a) | Ext(a, _) | CustomNest(a) => nullable(a),
         Lazy(_) => true,
         OrNot(_) | Not(_) | Rewind(_) => true,
         Rep(a, bd, sink) => {
@@ -477,6 +482,8 @@ impl fmt::Display for G {
             SpanWith(a) => write!(f, "span_with({})", a),
             Mid(a) => write!(f, "mid({})", a),
             Lazy(a) => write!(f, "lazy({})", a),
+            Ext(a, own) => write!(f, "{}({})", if *own { "ext_own_check" } else { "ext_default_check" }, a),
+            CustomNest(a) => write!(f, "custom_nest({})", a),
             Rep(a, x, s) => {
                 write!(f, "repeated[")?;
                 bd(f, x)?;
@@ -731,6 +738,9 @@ impl<'a> P<'a> {
             "span_with" => SpanWith(un(self)?),
             "mid" => Mid(un(self)?),
             "lazy" => Lazy(un(self)?),
+            "ext_own_check" => Ext(un(self)?, true),
+            "ext_default_check" => Ext(un(self)?, false),
+            "custom_nest" => CustomNest(un(self)?),
             "nested_delims" => NestedDelims(un(self)?),
             "map_ctx" => MapCtx(un(self)?),
             "rep_ctx" => RepCtx(un(self)?),
